@@ -12,6 +12,9 @@
 // REGIME 1 : poles pairwise equal or >= 1e-8 apart, all contributing residues > 0  -> exact equality (merging, no
 //            cancellation, hence no term is dropped after a merge)
 // REGIME 2 : only the memory-safety monitors (no arithmetic oracle): every pattern pair, used for C17.
+// REGIME 3 : (C11) the part built from the adjoint operator pair (C' = CX^T, CX' = C^T) satisfies G'(conj z) == conj G(z)
+// REGIME 4 : (C11) diagonal component, CX = C^T: Im G(i w) <= 0 for w > 0
+//            (sign and end-point identities in imaginary time are decided per term in h_gfterm)
 #include "prestate.h"
 #include "pomerol/GreensFunctionPart.h"
 
@@ -33,7 +36,12 @@ static double mabs(double v) { return v < 0 ? -v : v; }
 extern "C" void h_main() {
     const int o = OUTER, i = INNER;
     pre::Dense dC = pre::dense(o, i, "C");
+#if REGIME == 4
+    pre::Dense dCX; dCX.rows = i; dCX.cols = o;
+    for (int r = 0; r < i; ++r) for (int c = 0; c < o; ++c) { dCX.present[r][c] = dC.present[c][r]; dCX.v[r][c] = dC.v[c][r]; }
+#else
     pre::Dense dCX = pre::dense(i, o, "CX");
+#endif
     HamiltonianPart& Hin = pre::hpart(i, "Ein");
     HamiltonianPart& Hout = pre::hpart(o, "Eout");
     double beta = sym_real("beta");
@@ -47,7 +55,32 @@ extern "C" void h_main() {
     G.compute();
     reach("computed");
 
-#if REGIME != 2
+#if REGIME == 3
+    {
+        pre::Dense tC, tCX; tC.rows = o; tC.cols = i; tCX.rows = i; tCX.cols = o;
+        for (int r = 0; r < o; ++r) for (int c = 0; c < i; ++c) { tC.present[r][c] = dCX.present[c][r]; tC.v[r][c] = dCX.v[c][r]; }
+        for (int r = 0; r < i; ++r) for (int c = 0; c < o; ++c) { tCX.present[r][c] = dC.present[c][r]; tCX.v[r][c] = dC.v[c][r]; }
+        AnnihilationOperatorPart& C2 = pre::oppart<AnnihilationOperatorPart>(tC);
+        CreationOperatorPart& CX2 = pre::oppart<CreationOperatorPart>(tCX);
+        GreensFunctionPart G2(C2, CX2, Hin, Hout, DMin, DMout);
+        G2.compute();
+        double x = sym_real("zre"), y = sym_real("zim");
+        assume(y != 0);
+        ComplexType g = G(ComplexType(x, y)), g2 = G2(ComplexType(x, -y));
+        check_eq(g2.real(), g.real(), "Re G_ji(conj z) == Re G_ij(z)");
+        check_eq(g2.imag(), -g.imag(), "Im G_ji(conj z) == -Im G_ij(z)");
+        reach("adjoint_pair_checked");
+    }
+#elif REGIME == 4
+    {
+        double y = sym_real("w");
+        assume(y > 0);
+        ComplexType g = G(ComplexType(0, y));
+        check(g.imag() <= 0, "Im G_ii(i w) <= 0 for w > 0");
+        // (the imaginary-time statements are decided per term in h_gfterm; a part is the sum of its terms)
+        reach("diagonal_checked");
+    }
+#elif REGIME != 2
     // ---- reference ------------------------------------------------------------
     double x = sym_real("zre"), y = sym_real("zim");
     assume(y != 0);
